@@ -165,7 +165,7 @@ def trajectory_invariants(a, t0, y0, segments, dtype, attrs, check_status=True):
     return out
 
 
-def run_integrate(a, target=None, step_limit=None, events=None, callbacks=None):
+def run_integrate(a, target=None, step_limit=None, events=None, callbacks=None, injected=()):
     """Calls a.integrate; returns (exception or None). A StepCap is returned as the StepCap itself."""
     import desolver as de
     cbs = list(callbacks or [])
@@ -189,6 +189,8 @@ def run_integrate(a, target=None, step_limit=None, events=None, callbacks=None):
             e.__cause__ = cause
         if isinstance(cause, StepCap):
             return cause
+        if injected and isinstance(cause, tuple(injected)):
+            return e      # a fault the harness injected on purpose
         if exc_origin(cause if cause is not None else e)[0] == "harness" and not isinstance(cause, StepCap):
             # an exception raised by harness code inside a user callable: a harness bug, not a finding
             raise cause
@@ -199,7 +201,7 @@ def run_integrate(a, target=None, step_limit=None, events=None, callbacks=None):
 # --------------------------------------------------------------------------------------------------
 # dense-output consistency of a whole recorded trajectory (C06 oracles 1, 2, 4), reused by C09 / C12
 # --------------------------------------------------------------------------------------------------
-def dense_consistency(a, rhs, fam, attrs, max_steps=80, what=""):
+def dense_consistency(a, rhs, fam, attrs, max_steps=80, what="", sig_what=None):
     from pbt import oracles as O
     out = []
     sol = a.sol
@@ -209,7 +211,7 @@ def dense_consistency(a, rhs, fam, attrs, max_steps=80, what=""):
     t = np.asarray(a.t, dtype=np.float64)
     y = np.asarray(a.y, dtype=np.float64)
     N = len(t) - 1
-    sig = "{}:{}".format(fam, what)
+    sig = "{}:{}".format(fam, what if sig_what is None else sig_what)
     te = [float(x) for x in (sol.t_eval or [])]
     if not rich:
         if len(te) != N or len(sol.y_interpolants) != N:
@@ -222,7 +224,7 @@ def dense_consistency(a, rhs, fam, attrs, max_steps=80, what=""):
         if any(b <= a_ for a_, b in zip(te, te[1:])):
             out.append(V("piece_order", "{}sol.t_eval is not strictly increasing".format(what + ": " if what else ""), sig, **attrs))
             return out
-    if rich:
+    if rich or N == 0:
         return out
     F = {}
 
